@@ -43,7 +43,7 @@ def ensure_wt():
 def demo(name, tag):
     d = os.path.join(SEEDED, name)
     exe = "/tmp/vseed/demo_%s_%s" % (name, tag)
-    r = sh("g++ -std=c++17 -O1 -I%s/include %s/demo.cpp -o %s" % (WT, d, exe), timeout=1800)
+    r = sh("g++ -std=c++17 -O1 -I%s/include '-DYOMM2_INCLUDE_DIR=\"%s/include\"' %s/demo.cpp -o %s" % (WT, WT, d, exe), timeout=1800)
     if r.returncode:
         return "compile failed: " + r.stdout[-600:], None
     rcs = []
